@@ -51,12 +51,12 @@ def enumFieldTys (S : Sig) (tn : String) (idx : Nat) (ty : Ty) : Option (List Ty
 
 def isEnumTy : Ty → Bool
   | .enum _ => true
-  | .app (.enum _) _ => true
+  | .app (.enum _) (_ :: _) => true
   | _ => false
 
 def isStructTy : Ty → Bool
   | .struct _ => true
-  | .app (.struct _) _ => true
+  | .app (.struct _) (_ :: _) => true
   | _ => false
 
 /-- the annotation of a constructor node / the scrutinee of a field read has the kind of the constructor
@@ -150,51 +150,103 @@ def dispatchOk (P : Prog) (tr m : String) (τ : Ty) (argTys : List Ty) (ty : Ty)
     | none => false
   | none => false
 
+/-! ### dispatch keys -/
+
+def okWidth (b : Nat) : Bool := b == 8 || b == 16 || b == 32 || b == 64
+def okFWidth (b : Nat) : Bool := b == 32 || b == 64
+
+def primOk : Prim → Bool
+  | .int b _ _ => okWidth b
+  | .float b _ => okFWidth b
+  | _ => true
+
+/-- the scalar types of goml -/
+def scalarTys : List Ty :=
+  [.unit, .bool, .string, .int 8 true, .int 16 true, .int 32 true, .int 64 true,
+   .int 8 false, .int 16 false, .int 32 false, .int 64 false, .float 32, .float 64]
+
+def isScalarTy (t : Ty) : Bool := scalarTys.any (tyBeq t)
+
+/-- strings no nominal type may be called: the keys of the scalar types and the key of "no key" -/
+def reservedKeys : List String := "?" :: scalarTys.map tyKey
+
+/-- no enum / struct is named like a reserved key; no name is both an enum and a struct -/
+def namesOk (S : Sig) : Bool :=
+  S.enums.all (fun d => !reservedKeys.contains d.name && (findStruct S.structs d.name).isNone) &&
+  S.structs.all (fun d => !reservedKeys.contains d.name)
+
+/-- a type whose key determines it among the types values of the program can have: a scalar, or a
+    NON-GENERIC enum / struct of `S` -/
+def keyable (S : Sig) (t : Ty) : Bool :=
+  isScalarTy t ||
+  (match t with
+   | .enum n => (match findEnum S.enums n with | some d => d.generics.isEmpty | none => false)
+   | .struct n => (match findStruct S.structs n with | some d => d.generics.isEmpty | none => false)
+   | _ => false)
+
+/-- one row `(tr, key, m) ↦ f` of the dispatch table: `f` is a function of the program whose first parameter has a
+    keyable type of that key and whose signature is the trait's method signature at `Self :=` that type -/
+def rowOk (S : Sig) (P : Prog) (r : String × String × String × String) : Bool :=
+  match P.findFn r.2.2.2 with
+  | some g =>
+    (match g.params with
+     | p :: _ =>
+       keyable S p.2 && tyKey p.2 == r.2.1 &&
+         (match methodTy S r.1 r.2.2.1 p.2 with
+          | some t => tyBeq t (fnTy g)
+          | none => false)
+     | [] => false)
+  | none => false
+
+/-- **the dispatch-table check**: what makes dynamic dispatch on the runtime key agree with the static type for
+    EVERY receiver type, also a type parameter instantiated at run time -/
+def implsOk (S : Sig) (P : Prog) : Bool := namesOk S && P.impls.all (rowOk S P)
+
 mutual
-def okE (P : Prog) (Γ : TyEnv) (K : Know) : Expr → Bool
+def okE (S : Sig) (P : Prog) (Γ : TyEnv) (K : Know) : Expr → Bool
   | .var x ty => (lookupVar Γ x).isSome || fnValOk P x ty
-  | .prim _ => true
+  | .prim p => primOk p
   | .tag _ _ => false
-  | .constr c ty args => ctorTyOk c ty && okL P Γ K args
-  | .tuple _ items => okL P Γ K items
+  | .constr c ty args => ctorTyOk c ty && okL S P Γ K args
+  | .tuple _ items => okL S P Γ K items
   | .array _ _ => false
-  | .closure _ ps body => okE P (bindAll ps Γ) [] body
-  | .letE x v b => okE P Γ K v && okE P ((x, getTy v) :: Γ) (dropK x K) b
+  | .closure _ ps body => okE S P (bindAll ps Γ) [] body
+  | .letE x v b => okE S P Γ K v && okE S P ((x, getTy v) :: Γ) (dropK x K) b
   | .matchE _ s arms d =>
-    okE P Γ K s && okA P Γ K (scrutLocal Γ s) arms &&
-      (match d with | some d => okE P Γ K d | none => true)
-  | .ite c t e => okE P Γ K c && okE P Γ K t && okE P Γ K e
-  | .while c b => okE P Γ K c && okE P Γ K b
+    okE S P Γ K s && okA S P Γ K (scrutLocal Γ s) arms &&
+      (match d with | some d => okE S P Γ K d | none => true)
+  | .ite c t e => okE S P Γ K c && okE S P Γ K t && okE S P Γ K e
+  | .while c b => okE S P Γ K c && okE S P Γ K b
   | .go _ => false
   | .cget c _ _ e =>
-    okE P Γ K e && ctorTyOk c (getTy e) &&
+    okE S P Γ K e && ctorTyOk c (getTy e) &&
       (match c with
        | .struct _ => true
        | .enum _ _ ci => match e with | .var x _ => lookupK K x == some ci | _ => false)
-  | .un _ _ e => okE P Γ K e
-  | .bin _ _ l r => okE P Γ K l && okE P Γ K r
+  | .un _ _ e => okE S P Γ K e
+  | .bin _ _ l r => okE S P Γ K l && okE S P Γ K r
   | .call ty f args =>
-    okL P Γ K args &&
+    okL S P Γ K args &&
       ((match f with
         | .var fn tf => (lookupVar Γ fn).isNone && builtinOk P fn tf && tyBeq tf (.func (getTys args) ty)
         | _ => false) ||
-       (okE P Γ K f && tyBeq (getTy f) (.func (getTys args) ty)))
+       (okE S P Γ K f && tyBeq (getTy f) (.func (getTys args) ty)))
   | .toDyn _ _ _ _ => false
   | .dynCall _ _ _ _ _ => false
   | .traitCall tr m ty recv args =>
-    okE P Γ K recv && okL P Γ K args && concreteTy (getTy recv) &&
-      dispatchOk P tr m (getTy recv) (getTys args) ty
-  | .proj _ _ e => okE P Γ K e
-def okL (P : Prog) (Γ : TyEnv) (K : Know) : List Expr → Bool
+    okE S P Γ K recv && okL S P Γ K args &&
+      ((concreteTy (getTy recv) && dispatchOk P tr m (getTy recv) (getTys args) ty) || implsOk S P)
+  | .proj _ _ e => okE S P Γ K e
+def okL (S : Sig) (P : Prog) (Γ : TyEnv) (K : Know) : List Expr → Bool
   | [] => true
-  | e :: es => okE P Γ K e && okL P Γ K es
-def okA (P : Prog) (Γ : TyEnv) (K : Know) (sv : Option String) : List Arm → Bool
+  | e :: es => okE S P Γ K e && okL S P Γ K es
+def okA (S : Sig) (P : Prog) (Γ : TyEnv) (K : Know) (sv : Option String) : List Arm → Bool
   | [] => true
   | .mk lhs body :: rest =>
     (match lhs with
-     | .constr (.enum _ _ idx) _ _ => okE P Γ (learn K sv idx) body
-     | .prim _ => okE P Γ K body
-     | _ => false) && okA P Γ K sv rest
+     | .constr (.enum _ _ idx) _ _ => okE S P Γ (learn K sv idx) body
+     | .prim _ => okE S P Γ K body
+     | _ => false) && okA S P Γ K sv rest
 end
 
 mutual
@@ -202,8 +254,8 @@ mutual
 inductive VT (S : Sig) (P : Prog) : Val → Ty → Prop
   | unit : VT S P .unit .unit
   | bool (b : Bool) : VT S P (.bool b) .bool
-  | int (b : Nat) (s : Bool) (x : Int) : VT S P (.int b s x) (.int b s)
-  | float (b : Nat) (x : Float) : VT S P (.float b x) (.float b)
+  | int (b : Nat) (s : Bool) (x : Int) : okWidth b = true → VT S P (.int b s x) (.int b s)
+  | float (b : Nat) (x : Float) : okFWidth b = true → VT S P (.float b x) (.float b)
   | str (s : String) : VT S P (.str s) .string
   | tuple {vs : List Val} {ts : List Ty} : VTs S P vs ts → VT S P (.tuple vs) (.tuple ts)
   | enumV {n : String} {idx : Nat} {args : List Val} {t : Ty} {fts : List Ty} :
@@ -213,7 +265,7 @@ inductive VT (S : Sig) (P : Prog) : Val → Ty → Prop
   /-- a closure: its code is `Wt`-consistent and in the fragment under a typing `Γ` of the captured
       environment, at the instantiation `θ` of the activation that built it -/
   | closure {θ : Subst} {ρ : Env} {Γ : TyEnv} {pts : List (String × Ty)} {body : Expr} :
-      ET S P θ ρ Γ → errs S (bindAll pts Γ) body = [] → okE P (bindAll pts Γ) [] body = true →
+      ET S P θ ρ Γ → errs S (bindAll pts Γ) body = [] → okE S P (bindAll pts Γ) [] body = true →
       VT S P (.closure (pts.map (·.1)) body ρ) (.func (substTys θ (pts.map (·.2))) (substTy θ (getTy body)))
   /-- a top-level function as a value, at an instance of its signature -/
   | fn {name : String} {g : Fn} (θ : Subst) :
@@ -229,7 +281,7 @@ inductive ET (S : Sig) (P : Prog) : Subst → Env → TyEnv → Prop
 end
 
 def okFn (S : Sig) (P : Prog) (f : Fn) : Bool :=
-  wtFn S f && okE P (bindAll f.params []) [] f.body
+  wtFn S f && okE S P (bindAll f.params []) [] f.body
 
 /-- the whole-program hypothesis of `sem_preserves_types_partial`: the signature is the program's,
     every function is consistent (`Wt.wtFn`, what `./check C03` evaluates) and lies in the fragment -/
@@ -239,23 +291,23 @@ def okProg (S : Sig) (P : Prog) : Bool :=
 /-! ### reports only: first node kind outside the fragment -/
 
 mutual
-partial def whyE (P : Prog) (Γ : TyEnv) (K : Know) : Expr → Option String
+partial def whyE (S : Sig) (P : Prog) (Γ : TyEnv) (K : Know) : Expr → Option String
   | .var x ty => if (lookupVar Γ x).isSome || fnValOk P x ty then none else some ("global-as-value:" ++ x)
-  | .prim _ => none
+  | .prim p => if primOk p then none else some "literal-width"
   | .tag _ _ => some "tag"
-  | .constr c ty args => if ctorTyOk c ty then whyL P Γ K args else some "constr:kind"
-  | .tuple _ items => whyL P Γ K items
+  | .constr c ty args => if ctorTyOk c ty then whyL S P Γ K args else some "constr:kind"
+  | .tuple _ items => whyL S P Γ K items
   | .array _ _ => some "array"
-  | .closure _ ps body => whyE P (bindAll ps Γ) [] body
-  | .letE x v b => (whyE P Γ K v).orElse fun _ => whyE P ((x, getTy v) :: Γ) (dropK x K) b
+  | .closure _ ps body => whyE S P (bindAll ps Γ) [] body
+  | .letE x v b => (whyE S P Γ K v).orElse fun _ => whyE S P ((x, getTy v) :: Γ) (dropK x K) b
   | .matchE _ s arms d =>
-    (whyE P Γ K s).orElse fun _ => (whyA P Γ K (scrutLocal Γ s) arms).orElse fun _ =>
-      match d with | some d => whyE P Γ K d | none => none
-  | .ite c t e => (whyE P Γ K c).orElse fun _ => (whyE P Γ K t).orElse fun _ => whyE P Γ K e
-  | .while c b => (whyE P Γ K c).orElse fun _ => whyE P Γ K b
+    (whyE S P Γ K s).orElse fun _ => (whyA S P Γ K (scrutLocal Γ s) arms).orElse fun _ =>
+      match d with | some d => whyE S P Γ K d | none => none
+  | .ite c t e => (whyE S P Γ K c).orElse fun _ => (whyE S P Γ K t).orElse fun _ => whyE S P Γ K e
+  | .while c b => (whyE S P Γ K c).orElse fun _ => whyE S P Γ K b
   | .go _ => some "go"
   | .cget c _ _ e =>
-    (whyE P Γ K e).orElse fun _ =>
+    (whyE S P Γ K e).orElse fun _ =>
       if !ctorTyOk c (getTy e) then some "cget:kind" else
       match c with
       | .struct _ => none
@@ -263,10 +315,10 @@ partial def whyE (P : Prog) (Γ : TyEnv) (K : Know) : Expr → Option String
         match e with
         | .var x _ => if lookupK K x == some ci then none else some "cget:variant-not-established"
         | _ => some "cget:not-on-a-variable"
-  | .un _ _ e => whyE P Γ K e
-  | .bin _ _ l r => (whyE P Γ K l).orElse fun _ => whyE P Γ K r
+  | .un _ _ e => whyE S P Γ K e
+  | .bin _ _ l r => (whyE S P Γ K l).orElse fun _ => whyE S P Γ K r
   | .call ty f args =>
-    (whyL P Γ K args).orElse fun _ =>
+    (whyL S P Γ K args).orElse fun _ =>
       let direct := match f with
         | .var fn tf => (lookupVar Γ fn).isNone && builtinOk P fn tf && tyBeq tf (.func (getTys args) ty)
         | _ => false
@@ -276,31 +328,36 @@ partial def whyE (P : Prog) (Γ : TyEnv) (K : Know) : Expr → Option String
          if (lookupVar Γ fn).isNone && (P.findFn fn).isNone then some ("call:builtin:" ++ fn)
          else if (lookupVar Γ fn).isNone && !fnValOk P fn tf then some "call:not-the-instance-matchTy-finds"
          else none
-       | _ => whyE P Γ K f).orElse fun _ =>
+       | _ => whyE S P Γ K f).orElse fun _ =>
         if !tyBeq (getTy f) (.func (getTys args) ty) then some "call:annotation-vs-arguments" else none
   | .toDyn _ _ _ _ => some "todyn"
   | .dynCall _ _ _ _ _ => some "dyncall"
   | .traitCall tr m ty recv args =>
-    (whyE P Γ K recv).orElse fun _ => (whyL P Γ K args).orElse fun _ =>
-      if !concreteTy (getTy recv) then some ("traitcall:receiver-" ++ tyClass (getTy recv))
+    (whyE S P Γ K recv).orElse fun _ => (whyL S P Γ K args).orElse fun _ =>
+      if implsOk S P then none
+      else if !concreteTy (getTy recv) then
+        some ("traitcall:receiver-" ++ tyClass (getTy recv) ++ (if !namesOk S then ":names" else
+          match P.impls.find? (fun r => !rowOk S P r) with
+          | some r => ":row-not-keyable-or-signature:" ++ r.2.1
+          | none => ""))
       else if !dispatchOk P tr m (getTy recv) (getTys args) ty then some "traitcall:dispatch-row-signature"
       else none
-  | .proj _ _ e => whyE P Γ K e
-partial def whyL (P : Prog) (Γ : TyEnv) (K : Know) : List Expr → Option String
+  | .proj _ _ e => whyE S P Γ K e
+partial def whyL (S : Sig) (P : Prog) (Γ : TyEnv) (K : Know) : List Expr → Option String
   | [] => none
-  | e :: es => (whyE P Γ K e).orElse fun _ => whyL P Γ K es
-partial def whyA (P : Prog) (Γ : TyEnv) (K : Know) (sv : Option String) : List Arm → Option String
+  | e :: es => (whyE S P Γ K e).orElse fun _ => whyL S P Γ K es
+partial def whyA (S : Sig) (P : Prog) (Γ : TyEnv) (K : Know) (sv : Option String) : List Arm → Option String
   | [] => none
   | .mk lhs body :: rest =>
     (match lhs with
-     | .constr (.enum _ _ idx) _ _ => whyE P Γ (learn K sv idx) body
-     | .prim _ => whyE P Γ K body
-     | _ => some "arm-head").orElse fun _ => whyA P Γ K sv rest
+     | .constr (.enum _ _ idx) _ _ => whyE S P Γ (learn K sv idx) body
+     | .prim _ => whyE S P Γ K body
+     | _ => some "arm-head").orElse fun _ => whyA S P Γ K sv rest
 end
 
 def whyProg (S : Sig) (P : Prog) : Option String :=
   P.fns.findSome? fun f =>
     if !wtFn S f then some "wt"
-    else whyE P (bindAll f.params []) [] f.body
+    else whyE S P (bindAll f.params []) [] f.body
 
 end Goml.ValTy
